@@ -10,7 +10,7 @@ ID = 'C04'
 LEVEL = 'exploration'
 RUNS = {'quick': 24000, 'thorough': 400000}
 CHUNK = 100
-PROBES = ['paged_feed_generator', 'long_window', 'same_name_code_pair', 'parser_built_with_thread_map', 'earlier_parser_object', 'timestamps_not_monotone', 'timestamp_ties', 'record_names_thread_with_open_window', 'stray_end', 'stray_end_inside_open_window', 'reopened_start', 'crossing_pairs', 'nested_same_thread',
+PROBES = ['two_feeders_on_one_parser', 'paged_feed_generator', 'long_window', 'same_name_code_pair', 'parser_built_with_thread_map', 'earlier_parser_object', 'timestamps_not_monotone', 'timestamp_ties', 'record_names_thread_with_open_window', 'stray_end', 'stray_end_inside_open_window', 'reopened_start', 'crossing_pairs', 'nested_same_thread',
           'other_thread_between', 'trace_domain_window', 'trace_record_inside_ordinary_window', 'undecoded_pair',
           'unknown_code', 'all_qualifier', 'fragment_none', 'fault_in_open_window', 'decoder_raised']
 RULE = ('one run = 1..6 thread programs (all decoder families, trace-domain records, known-but-undecoded and unknown '
@@ -145,6 +145,7 @@ def generate(rng, index, tier):
     scn['earlier'] = rng.chance(0.2)
     scn['late_table'] = rng.chance(0.1)
     scn['paged'] = rng.chance(0.25)        # the same stream also goes through feed_generator() in pages on a second parser    # the caller completes the code table it handed over after building the parser       # another parser object in the same process saw unfinished operations of these threads
+    scn['two_feeders'] = rng.chance(0.2)
     scn['consumer_edits'] = rng.chance(0.15)     # every returned trace's record list is emptied by the caller as soon as it is judged
     if rng.chance(0.15):
         # id-remapped table: a decodable name lives under another id
@@ -223,6 +224,7 @@ def execute(scn):
     hist = []
     sigs = set()
     reported = []     # (trace, window delivered at that moment) - nothing already reported may change later
+    reported_lists = []
     threads_seen = set()
     last_th = None
     switches = 0
@@ -332,6 +334,8 @@ def execute(scn):
             else:
                 if top or ret is not None:
                     bad('emitted-for-undecodable-single', 'q=%d' % rec['q'], 'record %d %r: %r / %r' % (i, name, top, ret))
+        if ret is not None and not isinstance(ret, DecoderRaised) and isinstance(getattr(ret, 'ktraces', None), list):
+            reported_lists.append([index_of.get(id(e), -1) for e in ret.ktraces])
         if scn.get('consumer_edits') and ret is not None and isinstance(getattr(ret, 'ktraces', None), list):
             # the caller uses the trace up: its record list is emptied in place (the list is the caller's; every other window
             # of the thread has its own)
@@ -392,6 +396,43 @@ def execute(scn):
             if isinstance(got2, tuple) or [g_[0] for g_ in got2] != [w_[0] for w_ in want2]:
                 bad('paged-feed-generator-differs', 'traces', 'record-by-record feed() yields %d traces %r..., paged feed_generator() %r' % (
                     len(want2), [w_[0] for w_ in want2][:6], got2 if isinstance(got2, tuple) else [g_[0] for g_ in got2][:6]))
+    if scn.get('two_feeders') and not viols and len(stream) <= 3000:
+        # metamorphic: one parser object fed through two routes at once - a feed_generator() is under way, and while it waits
+        # for its next record other records (of any thread) reach the same parser through feed() directly - delivers the same
+        bump('probe:two_feeders_on_one_parser')
+        p3 = tool.tp_mod.TracesParser(dict(table), dict(tmap), {})
+        ev3 = worlds.kevents_of(stream)
+        idx3 = {id(e): i for i, e in enumerate(ev3)}
+        from ..rng import Rng
+        r8 = Rng(len(stream) * 104729 + 11)
+        route = [r8.randrange(3) == 0 for _ in ev3]        # True: through the generator
+        got3 = []
+
+        def rep(t):
+            return (type(t).__name__, [idx3.get(id(e), -1) for e in t.ktraces] if isinstance(getattr(t, 'ktraces', None), list) else None)
+
+        def src():
+            for e, via_gen in zip(ev3, route):
+                if via_gen:
+                    yield e
+                else:
+                    t_ = p3.feed(e)
+                    if t_ is not None:
+                        got3.append(rep(t_))
+        try:
+            for t in p3.feed_generator(src()):
+                got3.append(rep(t))
+        except Exception as e:
+            got3 = ('raised', repr(e))
+        if not any(h_[3] == 'DecoderRaised' for h_ in hist):
+            want3 = [h_[3] for h_ in hist if h_[3] is not None]
+            if isinstance(got3, tuple) or [g_[0] for g_ in got3] != want3:
+                bad('two-feeders-differ', 'traces', 'record-by-record feed() yields %d traces %r..., generator plus direct feed() %r' % (
+                    len(want3), want3[:6], got3 if isinstance(got3, tuple) else [g_[0] for g_ in got3][:6]))
+            else:
+                # and the same windows: compare the record lists of the traces with the single-route run's
+                if [g_[1] for g_ in got3 if g_[1] is not None] != reported_lists:
+                    bad('two-feeders-differ', 'windows', 'the record lists of the traces differ between the single-route and the two-route run')
     crossing = _count_crossing(stream)
     if crossing:
         bump('probe:crossing_pairs', crossing)
